@@ -79,8 +79,8 @@ def _gen_one(ctx, item):
         raise core.ToolError(f"stage B: generator class {cls} failed rc={rc}:\n" + core._tail(text))
     out = []
     for i, r in enumerate(sorted(set(json.loads(l)[5:] for l in lines))):
-        if not num and cls == "xa" and (i + ctx.seed) % (6 if ctx.thorough else 2):
-            continue            # a seed-rotated residue class of the exhaustive enumeration: quick 1/2 of the
+        if not num and cls == "xa" and (i + ctx.seed) % (6 if ctx.thorough else 3):
+            continue            # a seed-rotated residue class of the exhaustive enumeration: quick 1/3 of the
                                 # histories of <= 3 calls, thorough 1/6 of those of <= 4 calls (budget)
         c = json.loads(r)
         c["id"] = f"{cls}{i}"
@@ -202,7 +202,7 @@ def run(ctx, cases_override=None):
         "distinct_nontrivial": sum(v for k, v in hist_len.items() if k >= 2),
         "rule": "one case = one operation history replayed on a real MutableArchive; non-trivial = at least two calls",
         "exhaustive": False,
-        "exhaustive_part": "classes xa/xb: TLC enumerates every history up to the length bound over 3 names x {add(rep),add(norep),remove,rename,compact,flush,reopen}; xb is replayed completely, xa as a seed-rotated residue class (quick 1/2 of <= 3 calls, thorough 1/6 of <= 4 calls)",
+        "exhaustive_part": "classes xa/xb: TLC enumerates every history up to the length bound over 3 names x {add(rep),add(norep),remove,rename,compact,flush,reopen}; xb is replayed completely, xa as a seed-rotated residue class (quick 1/3 of <= 3 calls, thorough 1/6 of <= 4 calls)",
         "code_model_prediction_drift": pred_drift,
     }
     ctx.drift = [d for d in ctx.drift if "list" not in d["what"]][:20] + [d for d in ctx.drift if "list" in d["what"]][:3]
